@@ -433,6 +433,16 @@ func genC11(c *ctx) {
 				tcase.OracleFail = fmt.Sprintf("decode then re-encode of a version-%d-nonce token changes the bytes", ver)
 			} else if nb := dm.Nonce.MustEncode(); !bytes.Equal(nb, tok.Nonce.MustEncode()) {
 				tcase.OracleFail = fmt.Sprintf("decoded nonce re-encodes differently (version %d)", ver)
+			} else {
+				// the nonce's JSON form (msgpack bytes as a JSON string) round-trips to the same nonce, both versions
+				var back macaroon.Nonce
+				if js, jerr := json.Marshal(dm.Nonce); jerr != nil {
+					tcase.OracleFail = "nonce does not marshal to JSON: " + jerr.Error()
+				} else if uerr := json.Unmarshal(js, &back); uerr != nil {
+					tcase.OracleFail = "nonce JSON does not unmarshal: " + uerr.Error()
+				} else if !bytes.Equal(back.MustEncode(), dm.Nonce.MustEncode()) || back.UUID() != dm.Nonce.UUID() {
+					tcase.OracleFail = fmt.Sprintf("nonce changes in a JSON round trip (version %d)", ver)
+				}
 			}
 		}
 		st.Add(tcase)
